@@ -30,10 +30,32 @@ def strip(nodes):
     return out
 
 
+TFY_LEAVES = [
+    {"k": "tfy", "res": {"k": "list", "t": "taglist", "kids": []}},
+    {"k": "tfy", "res": {"k": "list", "t": "taglist", "kids": [{"k": "text", "s": "e1"}, {"k": "text", "s": "e2"}]}},
+    {"k": "tfy", "res": {"k": "list", "t": "taglist", "kids": [{"k": "text", "s": "f1"}, {"k": "dep", "name": "td", "version": "1"}, {"k": "tag", "name": "b", "ws": False, "attrs": [], "kids": []}]}},
+    {"k": "tfy", "res": {"k": "text", "s": "single"}},
+]
+
+
+def _add_tfy(nodes, pick):
+    """plant tagifiable objects (expanding to 0, 1, 2 or 3 nodes) at generated positions"""
+    out = []
+    for i, n in enumerate(nodes):
+        if n["k"] == "tag":
+            n = dict(n, kids=_add_tfy(n["kids"], pick // 3 + i))
+        if (pick + i) % 4 == 0:
+            out.append(TFY_LEAVES[(pick // 2 + i) % len(TFY_LEAVES)])
+        out.append(n)
+    return out
+
+
 def case_strategy():
     return st.fixed_dictionaries(
         {
-            "roots": gen.layout_forest(newlines=True, meta=3, spaces=True, blank=("", " ")).map(gen.number),
+            "tfy": st.one_of(st.just(0), st.just(0), st.integers(1, 10**6)),
+            "share": st.one_of(st.just(0), st.integers(1, 10**6)),
+            "roots": gen.layout_forest(newlines=True, meta=3, spaces=True, blank=("", " ", "\n", "\nabc", "\r\nx")).map(gen.number),
             "indent": st.integers(0, 4),
             "eol": st.sampled_from(EOLS),
             "pick": st.integers(0, 10**6),
@@ -89,10 +111,31 @@ def body(case, note):
     import htmltools as h
 
     roots, indent, eol = case["roots"], case["indent"], case["eol"]
+    has_tfy = bool(case.get("tfy"))
+    if has_tfy:
+        roots = _add_tfy(roots, case["tfy"])
+    if case.get("share"):
+        roots = gen.share_some(roots, case["share"])  # e.g. the same dependency object several times in a row
     bare = strip(roots)
-    w = [build(r) for r in roots]
-    wo = [build(r) for r in bare]
+    memo_w: dict = {}
+    memo_o: dict = {}
+    w = [build(r, memo_w) for r in roots]
+    wo = [build(r, memo_o) for r in bare]
     tlw, tlo = h.TagList(*w), h.TagList(*wo)
+    if has_tfy:
+        # markup can only be asked of an expanded tree: compare the expanded trees and the render() paths
+        a, b = tlw.tagify().get_html_string(indent, eol), tlo.tagify().get_html_string(indent, eol)
+        check(a == b, "tagify().get_html_string changes when metadata nodes are present (tree with tagifiable objects)", b, a)
+        check(tlw.render()["html"] == tlo.render()["html"], "TagList.render()['html'] changes with metadata (tree with tagifiable objects)", tlo.render()["html"], tlw.render()["html"])
+        check(str(tlw) == str(tlo), "str(TagList) changes with metadata (tree with tagifiable objects)")
+        for r, ow in zip(roots, w):
+            if r["k"] == "tag":
+                oo = build(strip([r])[0], {})
+                check(ow.render()["html"] == oo.render()["html"], "Tag.render()['html'] changes with metadata (tree with tagifiable objects)", oo.render()["html"], ow.render()["html"])
+        acc: set = set()
+        _positions(roots, acc)
+        note(bool(acc & {"first", "only-children", "between-inline-and-block"}), "with-tagifiable", *sorted(acc))
+        return
     a, b = tlw.get_html_string(indent, eol), tlo.get_html_string(indent, eol)
     check(a == b, "TagList.get_html_string changes when metadata nodes are present", b, a)
     check(tlw.get_html_string(indent, eol, add_ws=False) == tlo.get_html_string(indent, eol, add_ws=False), "TagList(add_ws=False) changes with metadata")
@@ -163,7 +206,7 @@ def body(case, note):
         check(len(tw.get_dependencies(dedup=False)) >= n_meta and len(exp_w) == n_meta, "dependencies displayed inside a with-block are not all kept as metadata children", n_meta, len(exp_w))
     acc: set = set()
     _positions(roots, acc)
-    note(bool(acc & {"first", "only-children", "between-inline-and-block"}), *sorted(acc))
+    note(bool(acc & {"first", "only-children", "between-inline-and-block"}), "same-object-repeated" if memo_w else "", *sorted(acc))
 
 
 RULE = (
@@ -180,7 +223,7 @@ CLAUSES = [
         quick=700,
         thorough=12000,
         shards_quick=4,
-        required=("first", "last", "only-children", "between-inline-and-block", "several-in-a-row", "inside-void", "beside-single-text"),
+        required=("first", "last", "only-children", "between-inline-and-block", "several-in-a-row", "inside-void", "beside-single-text", "with-tagifiable", "same-object-repeated"),
         rule="see RULE",
     ),
 ]
